@@ -372,7 +372,8 @@ def bfs(init, kind, depth, step, with_pairs=True, with_delpath=False,
 
 def enumerate_histories(init, kind, depth, with_pairs=True,
                         with_delpath=False, dedup=True, proc_issuer=False,
-                        gen_kind=None, with_extras=False):
+                        gen_kind=None, with_extras=False,
+                        pair_levels=None):
     """All (history, model trace) pairs explorer B visits, as plain data so
     that they can be distributed over worker processes."""
     root = Model(init, kind, proc_issuer, gen_kind)
@@ -383,7 +384,9 @@ def enumerate_histories(init, kind, depth, with_pairs=True,
     for level in range(depth):
         nxt = []
         for hist, model in frontier:
-            for op in menu(model, with_pairs, with_delpath,
+            pairs_here = with_pairs and (pair_levels is None
+                                         or level < pair_levels)
+            for op in menu(model, pairs_here, with_delpath,
                            with_extras=with_extras):
                 after = model.copy()
                 after.apply(op)
